@@ -5,6 +5,7 @@ Record shape the programs are written against:
     test/rec: varint n, varint m, string s, string t, boolean b, varint o (o may be unset)
 
 Every program is (text, tags). Tags:
+    may-reject - valid Python whose support is not promised: the engine must give Python's value OR refuse with an error
     outside  - uses an operator that is absent from the interpreted engine's tables: the interpreted engine must
                raise; the compiled engine is plain Python and must agree with the reference
     hunt     - known to make CrossHair realise values (floats, case mapping, int->str): explored for counterexamples
@@ -202,6 +203,15 @@ def predicates(depth):
         if " if " in e:
             tags.add("ifs")
         add(e, tags)
+    # ---- several generator expressions in one program: the same loop variable used one after the other is plain Python; a loop
+    #      variable re-bound by a NESTED generator must shadow (Python) or be refused - never leak into the outer element
+    for e in ("any(x > 2 for x in [r.n, r.m]) and any(x > 4 for x in [r.m])", "any(x == r.n for x in [1, 2]) or all(x == r.m for x in [3])", "any(x == 1 for x in [r.n]) == any(x == 1 for x in [r.m])",
+              "any(x > r.m for x in [r.n]) and not any(x > r.n for x in [r.m])", "all(x for x in [r.b]) and any(x == 'a' for x in [r.s, r.t])",
+              "any(x == 1 for x in [r.n] if x) or any(y == 2 for y in [r.m] for x in [1])"):
+        add(e, {"ifs"} if " if " in e else set())
+    for e in ("any(any(x == 5 for x in [r.m]) and x == 1 for x in [r.n, 1])", "any(all(x > 0 for x in [r.m, 1]) and x < 0 for x in [r.n])", "any(x == r.n and any(x == r.m for x in [1, 2]) for x in [1, 2])",
+              "any(any(y == x for y in [r.m]) for x in [r.n])"):
+        add(e, {"may-reject"} if e.count("for x") > 1 else set())
     # ---- and / or / not at the top, a few fixed ones (seeded combinations are added by the harness)
     for e in ("r.b and r.n > 1", "not r.b or r.s == 'a'", "r.s and r.t", "r.n or r.m", "r.n == 1 or r.n == 2 or r.n == 3", "r.n > 1 and r.m > 1 and r.b",
               "not (r.n > 1 and r.m < 3)", "r.b and not r.b", "(r.n > 1) == (r.m > 1)", "(r.n > 1 or r.s == 'a') and (r.m == 2 or r.t != 'b')",
@@ -220,7 +230,7 @@ def predicates(depth):
 def combinations(preds, count, seed, depth=2):
     """Seeded and/or/not combinations of decided predicates (no hunt/outside ones)."""
     rnd = random.Random(seed)
-    pool = [(t, tags) for t, tags in preds if not (tags & {"hunt", "outside", "compiled-only", "interp-only", "ifs", "small"})]
+    pool = [(t, tags) for t, tags in preds if not (tags & {"hunt", "outside", "compiled-only", "interp-only", "ifs", "small", "may-reject"})]
     out = []
     seen = set()
     while len(out) < count and len(seen) < count * 20:
